@@ -17,6 +17,8 @@
 (*                      emits it; DESIGN Appendix D)                                                                  *)
 (*    "StAsCsi"         deviation: the scanner also treats ESC \ as a control-sequence introducer                     *)
 (*    "SkipEmptyParam"  deviation: an empty SGR parameter next to non-empty ones is skipped instead of meaning 0      *)
+(*    "OpenSpanAtEol"   deviation: when a line ends with a sequence that leaves the state as it was, the characters   *)
+(*                      written since the last change of state lose their colour (the open span is never extended)    *)
 EXTENDS Integers, Sequences, FiniteSets, TLC
 
 ESC == "ESC"   BS == "BS"   SO == "SO"   SI == "SI"   BEL == "BEL"   LF == "LF"   BSL == "BSL"
@@ -34,6 +36,12 @@ DigitVal(c) == CASE c = "0" -> 0 [] c = "1" -> 1 [] c = "2" -> 2 [] c = "3" -> 3
                  [] c = "5" -> 5 [] c = "6" -> 6 [] c = "7" -> 7 [] c = "8" -> 8 [] c = "9" -> 9
 
 Corners == {"Osc8BareEsc"}
+(* the deviations and their combinations, singles first (a record is attributed to the first set that explains it) *)
+DevSets == << {"StAsCsi"}, {"SkipEmptyParam"}, {"OpenSpanAtEol"}, {"StAsCsi", "OpenSpanAtEol"},
+              {"SkipEmptyParam", "OpenSpanAtEol"}, {"StAsCsi", "SkipEmptyParam"},
+              {"StAsCsi", "SkipEmptyParam", "OpenSpanAtEol"} >>
+DevNames == << "StAsCsi", "SkipEmptyParam", "OpenSpanAtEol", "StAsCsi+OpenSpanAtEol", "SkipEmptyParam+OpenSpanAtEol",
+               "StAsCsi+SkipEmptyParam", "StAsCsi+SkipEmptyParam+OpenSpanAtEol" >>
 
 -------------------------------------------------------------------------------
 (* Part A - the scanner.  Each alternative of the regular expression is an automaton; Delta is its transition      *)
@@ -207,16 +215,32 @@ Whole(st) == [fg |-> st.fg, bg |-> st.bg, at |-> AttrSeq(st.at), url |-> st.url,
 Push(runs, st) == IF runs # <<>> /\ runs[Len(runs)].st = st THEN [runs EXCEPT ![Len(runs)].k = @ + 1]
                   ELSE Append(runs, [k |-> 1, st |-> st])
 
+(* deviation OpenSpanAtEol: the last k characters (all in the last run) are shown in the default rendition *)
+DropColour(runs, k) == LET n == Len(runs) IN
+                       IF runs[n].k = k THEN [runs EXCEPT ![n].st = Default]
+                       ELSE SubSeq(runs, 1, n - 1) \o <<[k |-> runs[n].k - k, st |-> runs[n].st], [k |-> k, st |-> Default]>>
+(* CODE-DERIVED, only used by that deviation: what the code counts as a change of state - a different state, or any *)
+(* OSC 8 that opens a hyperlink (a fresh link object even for the same URI)                                           *)
+OpensLink(t, r) == r[1] /\ IsOscTok(t) /\ t # Bare8 /\ r[2].url # NoUrl /\ Num(OscParts(t).num) = 8
+
 RECURSIVE Walk(_, _, _, _, _)
-(* acc = [text, runs, wf]; the result adds the state at the end of the line *)
+(* acc = [text, runs, wf, since, tok]: since = characters written since the state last changed, tok = the last      *)
+(* thing consumed was a sequence; the result adds the state at the end of the line                                  *)
 Walk(s, p, st, dv, acc) ==
-  IF p > Len(s) THEN [text |-> acc.text, runs |-> acc.runs, wf |-> acc.wf, final |-> st]
+  IF p > Len(s)
+  THEN [text |-> acc.text, wf |-> acc.wf, final |-> st,
+        runs |-> IF "OpenSpanAtEol" \in dv /\ acc.tok /\ acc.since > 0 /\ st # Default
+                 THEN DropColour(acc.runs, acc.since) ELSE acc.runs]
   ELSE LET e == MatchEnd(s, p, dv) IN
-       IF e = 0 THEN Walk(s, p + 1, st, dv, [acc EXCEPT !.text = Append(@, s[p]), !.runs = Push(@, st)])
-       ELSE LET r == Interp(st, SubSeq(s, p, e), dv) IN Walk(s, e + 1, r[2], dv, [acc EXCEPT !.wf = @ /\ r[1]])
+       IF e = 0 THEN Walk(s, p + 1, st, dv, [acc EXCEPT !.text = Append(@, s[p]), !.runs = Push(@, st),
+                                                        !.since = @ + 1, !.tok = FALSE])
+       ELSE LET t == SubSeq(s, p, e)
+                r == Interp(st, t, dv) IN
+            Walk(s, e + 1, r[2], dv, [acc EXCEPT !.wf = @ /\ r[1], !.tok = TRUE,
+                                                 !.since = IF r[2] # st \/ OpensLink(t, r) THEN 0 ELSE @])
 
 (* Colour(s, carry): text, runs of characters with their state, well-formedness, state carried to the next line *)
-ColourD(s, carry, dv) == Walk(s, 1, carry, dv, [text |-> <<>>, runs |-> <<>>, wf |-> TRUE])
+ColourD(s, carry, dv) == Walk(s, 1, carry, dv, [text |-> <<>>, runs |-> <<>>, wf |-> TRUE, since |-> 0, tok |-> FALSE])
 Colour(s, carry) == ColourD(s, carry, {})
 
 (* per-character attributes, run-length encoded: <<count, what each of these characters shows>>, maximal runs *)
